@@ -1882,6 +1882,31 @@ def translate(repo):
                     changed = True
                     break
     included = [ok[n] for n in names if n in ok and n not in excluded]
+    # Containers that translate but hold a class outside the translator: no model for them, but their schema, with the
+    # items of the outside classes removed (possible when those items are optional / repeated), still steers the
+    # generator of the direct oracle (nested version-dependent structures inside a container).
+    import copy as _copy
+    oracle_only = []
+    for n in names:
+        if n in ok and n in excluded and n not in hand and n not in unlisted:
+            c = _copy.deepcopy(ok[n])
+            keep = {}
+            usable = True
+            for side in ('rd', 'wr'):
+                keep[side] = []
+                for it in c[side]:
+                    outside = (it['kind'][0] == 'struct' and it['kind'][1] in excluded) or \
+                              (it.get('counted') and it['counted']['cls'] in excluded)
+                    if outside and it['mult'] not in ('Opt', 'Many'):
+                        usable = False
+                    if not outside:
+                        keep[side].append(it)
+            if usable and not any(it.get('by') or it.get('counted') for it in keep['wr']):
+                c['rd'], c['wr'] = keep['rd'], keep['wr']
+                c['post_rd'], c['post_wr'] = [], []
+                c['default_tag'] = default_tag(classes[n])
+                c['flags'] = sorted(set(c['flags']) | {'oracle_only'})
+                oracle_only.append(c)
     used_stubs = sorted({it['kind'][1] for c in included for it in c['rd'] + c['wr'] if it['kind'][0] == 'struct' and it['kind'][1] in kinds.stubs})
     for sn in used_stubs:
         cls = kinds.stubs[sn]
@@ -1894,7 +1919,7 @@ def translate(repo):
               and all(it['kind'][0] != 'struct' or it['kind'][1] in inc_names for it in ok[n]['rd'] + ok[n]['wr'])]
     for c in included + listed:
         c['default_tag'] = default_tag(classes[c['name']])
-    return {'v3': v3, 'v4': v4, 'tables': kinds.tables if v4 else {}, 'classes': included, 'listed': listed, 'excluded': excluded, 'errors': errors, 'unlisted_errors': unlisted,
+    return {'v3': v3, 'v4': v4, 'tables': kinds.tables if v4 else {}, 'oracle_only': oracle_only, 'classes': included, 'listed': listed, 'excluded': excluded, 'errors': errors, 'unlisted_errors': unlisted,
             'listed_but_translatable': listed_but_ok, 'stale_list_entries': stale,
             'all_class_names': names, 'hand': hand}
 
@@ -2011,7 +2036,7 @@ def render_coq(t):
 
 def render_json(t):
     enums = importlib.import_module('kmip.core.enums')
-    used_enums = used_enum_names(t)
+    used_enums = used_enum_names(dict(t, classes=t['classes'] + t.get('oracle_only', [])))      # the generator also needs the enums of the oracle-only containers
     def cj(c):
         return {'name': c['name'], 'module': c['module'], 'file': c['file'], 'default_tag': c['default_tag'],
                 'oversize': c['oversize'], 'minver': c['minver'], 'rebind': c.get('rebind'), 'rebind_nested': c.get('rebind_nested'),
@@ -2027,6 +2052,7 @@ def render_json(t):
         'enums': {e: sorted({m.value for m in getattr(enums, e)}) for e in used_enums},
         'excluded': t['excluded'],
         'listed_but_translatable': t['listed_but_translatable'],
+        'oracle_only_classes': [cj(c) for c in t.get('oracle_only', [])],
         'all_class_names': t['all_class_names'],
     }
     return json.dumps(doc, indent=1, sort_keys=True) + '\n'
